@@ -448,7 +448,7 @@ def run_case(ctx, c, shape):
                   "concatenated Pygments tokens differ from the preprocessed input (stripnl=%d)" % STRIPNL)
         ctx.case("syn_contract", [enc_str(c.code), c.tab_size, STRIPNL, enc_str_list(toks)], enc_bool(contract))
     res = render_rows(c.syntax(), c)
-    if shape in ("random", "gutter") and len(HISTORY) < (420 if ctx.quick else 8000) and (shape == "gutter" or len(HISTORY) < (300 if ctx.quick else 7000)):
+    if shape in ("random", "gutter") and len(HISTORY) < (420 if ctx.quick else 2600) and (shape == "gutter" or len(HISTORY) < (300 if ctx.quick else 2400)):
         HISTORY.append((c, res))
     ctx.note("result:" + (res[0] if res[0] == "ok" else res[1]))
     ctx.note(f"lexer:{c.lexer}")
@@ -832,7 +832,7 @@ def traceback_cases(ctx, rng):
 
     try:
         # ---- (1) independent modules, fresh path each
-        n_mod = 90 if ctx.quick else 2500
+        n_mod = 90 if ctx.quick else 2000
         for i in range(n_mod):
             src, lead, shape = gen_module(rng)
             path = os.path.join(root, "m%d.py" % i)
@@ -849,7 +849,7 @@ def traceback_cases(ctx, rng):
         main_path = os.path.join(root, "reused_main.py")
         lib_path = os.path.join(root, "reused_lib.py")
         single_path = os.path.join(root, "reused_single.py")
-        n_rounds = 50 if ctx.quick else 1200
+        n_rounds = 50 if ctx.quick else 500
         for i in range(n_rounds):
             if rng.random() < 0.35:
                 src, lead, shape = gen_module(rng)
